@@ -42,7 +42,7 @@ def alphabet21():
     seg = lambda s: [s, 1, 2, 3, 4, 5, 6, 7]
     A += [dt(P1, X, seg(1)), dt(P1, X, seg(2)), dt(P1, X, seg(3)), dt(P1, X, seg(0)), dt(P1, X, seg(255)),
           dt(P1, 255, seg(1)), dt(P1, 255, seg(2)), dt(P1, 255, seg(3)), dt(P2, X, seg(1)), dt(P1, F, seg(1))]
-    A += [cm(P1, X, [19, 20, 0, 3, 255] + PGN), cm(P2, X, [19, 9, 0, 2, 255] + PGN),
+    A += [cm(P1, X, [19, 21, 0, 3, 255] + PGN), cm(P2, X, [19, 9, 0, 2, 255] + PGN),
           cm(P1, 255, [32, 20, 0, 3, 255] + PGN), cm(P1, 255, [32, 9, 0, 2, 255] + PGN),
           cm(P1, 255, [32, 0, 0, 0, 255] + PGN), cm(P1, X, [32, 20, 0, 3, 255] + PGN),
           cm(P2, 255, [32, 20, 0, 3, 255] + PGN),
@@ -85,7 +85,7 @@ def alphabet22():
           dt(P1, X, 0, 1, 0), dt(P2, X, 0, 1), dt(P1, 255, 5, 1)]
     A += [cm(P1, X, 2, 0, 150, 3, 0, 0), cm(P1, X, 2, 0, 149, 3, 0, 0), cm(P1, X, 2, 9, 150, 3, 0, 0),
           cm(P1, 255, 2, 0, 150, 3, 0, 0), cm(P1, 255, 2, 5, 150, 3, 0, 0), cm(P1, X, 2, 3, 150, 3, 0, 0),
-          cm(P1, X, 3, 0, 150, 3, 255, 255), cm(P1, X, 3, 3, 150, 3, 255, 255), cm(P2, X, 3, 1, 100, 2, 255, 255),
+          cm(P1, X, 3, 0, 180, 3, 255, 255), cm(P1, X, 3, 3, 150, 3, 255, 255), cm(P2, X, 3, 1, 100, 2, 255, 255),
           cm(P1, 255, 4, 0, 150, 3, 255, 0), cm(P1, 255, 4, 5, 150, 3, 255, 0), cm(P1, 255, 4, 0, 0, 0, 255, 0),
           cm(P2, 255, 4, 0, 150, 3, 255, 0), cm(P1, X, 4, 0, 150, 3, 255, 0),
           cm(P1, X, 15, 0, 0xFFFFFF, 0xFFFFFF, 255, 1), cm(P1, X, 15, 12, 0xFFFFFF, 0xFFFFFF, 255, 1),
@@ -132,7 +132,7 @@ class Built:
         self.y.deaf = True
         self.y.silent_from = 0
         self.peer = self.net.bus.ghost_node()
-        self.big = 20 if dll == 'j1939-21' else 150
+        self.big = 21 if dll == 'j1939-21' else 180      # own messages: exact multiples of the packet size
         for s in hist[1:]:
             self.apply(s)
             if self.x.job.done:
@@ -265,10 +265,10 @@ def seeds(dll, win):
         inbound = [cm(P1, X, [16, 20, 0, 3, 255] + PGN), dt(P1, X, 1), dt(P1, X, 2), dt(P1, X, 3)]
         if win == 1:
             outbound = [('send', 'p2p'), cm(P1, X, [17, 1, 1, 255, 255] + PGN), cm(P1, X, [17, 1, 2, 255, 255] + PGN),
-                        cm(P1, X, [17, 1, 3, 255, 255] + PGN), cm(P1, X, [19, 20, 0, 3, 255] + PGN)]
+                        cm(P1, X, [17, 1, 3, 255, 255] + PGN), cm(P1, X, [19, 21, 0, 3, 255] + PGN)]
         else:
             outbound = [('send', 'p2p'), cm(P1, X, [17, 2, 1, 255, 255] + PGN), cm(P1, X, [17, 1, 3, 255, 255] + PGN),
-                        cm(P1, X, [19, 20, 0, 3, 255] + PGN)]
+                        cm(P1, X, [19, 21, 0, 3, 255] + PGN)]
         bam_in = [cm(P1, 255, [32, 20, 0, 3, 255] + PGN), dt(P1, 255, 1), dt(P1, 255, 2), dt(P1, 255, 3)]
         bam_out = [('send', 'bam'), ('gap', 0.06), ('gap', 0.06)]
     else:
@@ -277,7 +277,7 @@ def seeds(dll, win):
         cts1, cts2, cts3 = (cm(P1, X, 1, 0, 0xFFFFFF, k, 1, 0) for k in (1, 2, 3))
         cts12 = cm(P1, X, 1, 0, 0xFFFFFF, 1, 2, 0)
         d1, d2, d3 = dt(P1, X, 0, 1), dt(P1, X, 0, 2), dt(P1, X, 0, 3, 30)
-        eoms, eoma = cm(P1, X, 2, 0, 150, 3, 0, 0), cm(P1, X, 3, 0, 150, 3, 255, 255)
+        eoms, eoma = cm(P1, X, 2, 0, 150, 3, 0, 0), cm(P1, X, 3, 0, 180, 3, 255, 255)
         bam, beoms = cm(P1, 255, 4, 0, 150, 3, 255, 0), cm(P1, 255, 2, 0, 150, 3, 0, 0)
         bd1, bd2, bd3 = dt(P1, 255, 0, 1), dt(P1, 255, 0, 2), dt(P1, 255, 0, 3, 30)
         inbound = [rts, d1, d2, d3, eoms]
